@@ -12,7 +12,7 @@ from hypothesis import strategies as st
 
 from ..core import SubCheck, Violation, cut, quiet, require
 from ..oracles import tables as otab
-from ..strategies import ulp_step
+from ..strategies import REL_OFFSETS, ulp_step
 
 PROPERTY_ID = "C18"
 LEVEL = "exploration"
@@ -80,6 +80,20 @@ def grid_case(draw, min_dims=1, max_dims=4, float_only=False, min_side=1):
                 arr[i] = arr[i - 1] + (1 if kind.startswith("i") else max(abs(arr[i - 1]) * 1e-3, 1e-3))
         axes.append({"dtype": kind, "values": [float(x) if kind.startswith("f") else int(x) for x in arr]})
     names = draw(st.lists(name_st, min_size=nd, max_size=nd, unique=True))
+    if nd >= 2 and draw(st.integers(0, 3)) == 0:
+        # names that differ only by letter case (FITS extension names are matched case-insensitively)
+        base = draw(st.sampled_from(["E", "beta", "Axis", "z", "Log_E", "t"]))
+        variants = [base, base.upper(), base.lower(), base.swapcase(), base.capitalize()]
+        uniq = []
+        for v in variants:
+            if v not in uniq:
+                uniq.append(v)
+        if len(uniq) >= 2:
+            names = list(names)
+            for i, v in enumerate(uniq[: min(nd, 3)]):
+                names[i] = v
+            if len(set(names)) < nd:
+                names = [f"{n}{i}" if names.count(n) > 1 and j != names.index(n) else n for j, (i, n) in enumerate(enumerate(names))]
     return {"shape": shape, "dtype": dt, "data": data, "axes": axes, "names": names}
 
 
@@ -129,6 +143,8 @@ def body_roundtrip(case):
         labels.add("axis_dtype_differs")
     if data.ndim >= 2:
         labels.add(">=2d")
+    if len({n.lower() for n in case["grid"]["names"]}) < len(case["grid"]["names"]):
+        labels.add("names_collide_under_case_folding")
     return labels
 
 
@@ -145,6 +161,11 @@ def body_slice(case):
         v = float(a[j])
     elif mode == "ulp":
         v = min(max(ulp_step(float(a[j]), case["ulps"]), float(a[0])), float(a[-1]))
+    elif mode == "rel":
+        # an interior window next to a node: node * (1 +- 1e-12 .. 1e-5)
+        d = REL_OFFSETS[case["ulps"] % len(REL_OFFSETS)] * (1 if case["t"] >= 0.5 else -1)
+        v = float(a[j]) * (1.0 + d) if a[j] != 0 else d
+        v = min(max(v, float(a[0])), float(a[-1]))
     else:
         j = min(j, k - 2)
         v = float(a[j] + case["t"] * (a[j + 1] - a[j]))
@@ -184,6 +205,8 @@ def body_slice(case):
             require(np.array_equal(np.asarray(got), want), "slice changed a remaining axis")
     if data.ndim >= 2:
         labels.add(">=2d")
+    if mode == "rel":
+        labels.add("relative_window_next_to_node")
     return labels
 
 
@@ -339,8 +362,8 @@ SUBCHECKS = [
                 "grid": grid_case(float_only=True, min_side=2),
                 "axis": st.integers(0, 3),
                 "node": st.integers(0, 5),
-                "mode": st.sampled_from(["node", "ulp", "between", "between"]),
-                "ulps": st.sampled_from([-2, -1, 1, 2]),
+                "mode": st.sampled_from(["node", "ulp", "between", "between", "rel", "rel"]),
+                "ulps": st.sampled_from([-2, -1, 1, 2, 3, 4, 5, 6, 7, 8]),
                 "t": st.one_of(st.floats(0.0, 1.0), st.sampled_from([0.5, 1e-12, 1 - 1e-12])),
             }
         ),
